@@ -38,8 +38,9 @@ def corpus():
         [0.0, -0.0], [-0.0, 0.0], {2: 'b', 1: 'a'}, {'b': 2, 'a': 1},
         dd, collections.OrderedDict([(2, 1), (1, 2)]), collections.deque([1, 2, 3], maxlen=5), collections.Counter('abracadabra'),
         collections.ChainMap({'a': 1}, {'b': 2}), collections.ChainMap(collections.defaultdict(list, a=[1]), {'b': 2, 'c': 3}),
-        pathlib.PurePosixPath('/usr/lib-x/python3.12/site-packages/' * 4), '/usr/lib-x/python3.12/site-packages/' * 4,
-        {'p': '/usr/lib-x/python3.12/site-packages/' * 4}, types.MappingProxyType({'m': 1}), types.SimpleNamespace(b=1, a=[1]),
+        pathlib.PurePosixPath('/usr/lib-x/python3.12/site-packages/' * 4), pathlib.PurePosixPath('/usr/lib-x/python3.12/site-packages/' * 4).as_posix(),
+        {'p': pathlib.PurePosixPath('/usr/lib-x/python3.12/site-packages/' * 4).as_posix()},
+        [pathlib.PurePosixPath('/opt/some-dir.d/with.dots-and-dashes/' * 3)], [pathlib.PurePosixPath('/opt/some-dir.d/with.dots-and-dashes/' * 3).as_posix()], types.MappingProxyType({'m': 1}), types.SimpleNamespace(b=1, a=[1]),
         datetime.datetime(2020, 1, 2, 3, 4, 5, 6), datetime.date(2020, 1, 2), datetime.time(1, 2), datetime.timedelta(days=-1, seconds=5),
         datetime.timezone.utc, datetime.timezone(datetime.timedelta(hours=2), 'X'),
         uuid.UUID(int=5), Color.RED, Point(1, [2]), functools.partial(int, '10', base=2), ValueError('bad', 2),
